@@ -138,6 +138,17 @@ pub fn draw_plan(world: &World, rng: &mut SimRng) -> Plan {
 			}
 		}
 	}
+	// "leapfrog" plans: two peers alternate along each branch, so that every block one peer submits
+	// has its parent in the other peer's hands at about the same time (parent being accepted while
+	// the child is being classified as an orphan)
+	if !long && rng.chance(1, 3) {
+		peers = vec![vec![], vec![]];
+		let mut ids = rest.clone();
+		ids.sort_by_key(|i| (world.blocks[*i].branch, world.blocks[*i].height));
+		for (k, id) in ids.iter().enumerate() {
+			peers[k % 2].push(*id);
+		}
+	}
 	Plan {
 		pre,
 		peers,
@@ -208,7 +219,17 @@ fn run_in_child(world: &World, plan: &Plan, probes: &Probes, seed: u64, replay: 
 	};
 	let opts: Options = world.opts;
 	let shared = Arc::new(Mutex::new(Shared::default()));
-	sched::install(seed, plan.stay_pct, replay, 400_000);
+	// in half of the runs one or two threads are stalled for a long stretch at a random point (the
+	// schedules in which "looked, then acted much later" races live); a function of the schedule seed
+	let mut sr = SimRng::new(seed).fork("stalls");
+	let mut stalls: Vec<(u64, u64)> = vec![];
+	if sr.chance(1, 2) {
+		for _ in 0..sr.range(1, 3) {
+			stalls.push((sr.below(2500), sr.range(150, 3000)));
+		}
+	}
+	let n_stalls = stalls.len();
+	sched::install_with_stalls(seed, plan.stay_pct, replay, 400_000, stalls);
 	let mut handles = vec![];
 	let blocks: Arc<Vec<grin_core::core::Block>> = Arc::new(world.blocks.iter().map(|b| b.block.clone()).collect());
 	let tds: Arc<Vec<u64>> = Arc::new(world.blocks.iter().map(|b| b.total_difficulty).collect());
@@ -482,6 +503,7 @@ fn run_in_child(world: &World, plan: &Plan, probes: &Probes, seed: u64, replay: 
 		"deadlock": out.deadlock.is_some(),
 		"final": final_state,
 		"reader_obs": shared.lock().unwrap().reader_obs,
+		"stalls": n_stalls,
 		"refused_for_missing_header": shared.lock().unwrap().refused_for_missing_header,
 		"tail_height": chain.tail().map(|t| t.height).unwrap_or(0),
 		"threads": out.names,
@@ -617,6 +639,7 @@ pub fn case(tier: &str, seed: u64, case: u64) -> CaseResult {
 				res.probe("out_of_steps");
 			}
 			res.probe_n("body_refused_until_header_arrived", r["refused_for_missing_header"].as_u64().unwrap_or(0));
+			res.fault_n("thread_stalled", r["stalls"].as_u64().unwrap_or(0));
 			if r["tail_height"].as_u64().unwrap_or(0) >= 20 {
 				res.probe("compaction_moved_tail_under_concurrency");
 			}
